@@ -110,6 +110,11 @@ func execScenario(env *hx.Env, files hx.Files, sc cliScenario, identical string)
 	case "is-dir":
 		_ = os.MkdirAll(filepath.Join(pkgDir, "adir.go"), 0o755)
 		outArg = filepath.Join(filepath.Dir(spelled), "adir.go")
+	case "odd-stem-g", "odd-stem-o", "odd-stem-dot", "no-ext", "long-ext":
+		// output names whose stem ends in a character of ".go", without extension, with another extension: the log
+		// is "<output minus its own extension>.log" whatever the extension is
+		name := map[string]string{"odd-stem-g": "mapping.go", "odd-stem-o": "zz_pogo.go", "odd-stem-dot": "y..go", "no-ext": "out_noext", "long-ext": "conv.text"}[sc.OutKind]
+		outArg = filepath.Join(filepath.Dir(spelled), name)
 	case "log-ext":
 		// an output whose extension is ".log": "<output minus extension>.log" is the output itself, so the log
 		// has to go somewhere else (LogAbs stays empty: any other *.log file next to the output is accepted)
